@@ -48,6 +48,11 @@ extern "C" void h_destroy_populated(void) {
             for (unsigned i = 0; i < n; ++i) vp_assert(&(*pr[n])[i] == T[i] && &(*sm[n])[i] == T[i], 3);
          }
          lx.get_function(*pr[0], *T[0]); lx.get_function(*pr[0], *T[0], *sm[0]);
+         // requests that are refused (a warehouse with never-set slots, an empty qualifier set, an untyped alias) leave nothing allocated behind
+         { impl::Warehouse<ipr::Type> gap(1 + vp_pick(2)); if (vp_flag()) gap.push_back(*T[1]);
+           (void)vp_outcome([&] { (void)lx.get_product(gap); }); (void)vp_outcome([&] { (void)lx.get_sum(gap); }); }
+         (void)vp_outcome([&] { (void)lx.get_qualified(ipr::Qualifiers{ }, *T[0]); });
+         (void)vp_outcome([&] { (void)reg->scope.make_alias(*N[1], *lx.make_id_expr(*N[0])); });
       }
       impl::Enum* e = lx.make_enum(*reg, ipr::Enum::Kind::Scoped); for (int i = 0; i < 10; ++i) e->add_member(*N[i % 3]);
       lx.get_linkage(u8"Fortran"); lx.get_calling_convention(u8"stdcall"); lx.get_symbol(*N[0], *T[0]);
@@ -138,6 +143,20 @@ extern "C" void h_destroy_large(void) {
       impl::Lexicon lx;
       const ipr::Type* t = &lx.int_type();
       for (int i = 0; i < C19_LARGE / 4; ++i) t = descending ? static_cast<const ipr::Type*>(&lx.get_pointer(*t)) : static_cast<const ipr::Type*>(&lx.get_reference(lx.get_pointer(*t)));
+   }
+   vp_leakcheck();
+   vp_done();
+}
+// a refused request as the very first request of a Lexicon (its tables are still empty): nothing stays allocated
+extern "C" void h_refused_first(void) {
+   unsigned what = vp_pick(3), slots = 1 + vp_pick(2); bool trailing = vp_flag();
+   vp_mark();
+   {
+      impl::Lexicon lx;
+      impl::Warehouse<ipr::Type> gap(trailing ? 0 : slots); if (trailing) { gap.push_back(lx.int_type()); gap.rep().resize(1 + slots); } else gap.push_back(lx.int_type());
+      if (what == 0) (void)vp_outcome([&] { (void)lx.get_product(gap); });
+      else if (what == 1) (void)vp_outcome([&] { (void)lx.get_sum(gap); });
+      else (void)vp_outcome([&] { (void)lx.get_qualified(ipr::Qualifiers{ }, lx.int_type()); });
    }
    vp_leakcheck();
    vp_done();
